@@ -577,6 +577,12 @@ func emitSchemaErrors(out *Out) {
 		{"schema-true", `true`, `{}`, "valid"},
 		{"schema-false", `false`, `{}`, "invalid"},
 		{"unknown-draft", `{"$schema":"http://example.com/nope","type":"object"}`, `{}`, "error"},
+		{"ref-to-another-file-unreached", `{"type":"object","properties":{"a":{"$ref":"other.json"}}}`, `{}`, "error"},
+		{"ref-to-another-file-reached", `{"type":"object","properties":{"a":{"$ref":"other.json"}}}`, `{"a":1}`, "error"},
+		{"ref-to-file-url-under-not", `{"$schema":"http://json-schema.org/draft-07/schema#","not":{"$ref":"file:///nowhere/x.json"}}`, `{"a":1}`, "error"},
+		{"ref-to-another-file-with-pointer", `{"$schema":"https://json-schema.org/draft/2020-12/schema","properties":{"a":{"$ref":"defs.json#/$defs/a"}}}`, `{}`, "error"},
+		{"ref-to-missing-local-definition", `{"properties":{"a":{"$ref":"#/definitions/nope"}}}`, `{}`, "error"},
+		{"ref-to-relative-directory", `{"anyOf":[{"type":"object"},{"$ref":"../up/one.json"}]}`, `{}`, "error"},
 	} {
 		verdict, verr := verdictOf([]byte(tc.data), []byte(tc.schema))
 		var why []string
